@@ -897,8 +897,21 @@ func (o *rfOutcome) targetCheck(evs []*rfEv, blocks []*rfBlock, add func(string,
 	p := rfIdent(first.read.c.Args[2])
 	isPtr, decided := false, false
 	if kind != "" {
-		if t, ok := o.decided[fmt.Sprintf("cmp:%s==%d", kind, 22)]; ok {
-			isPtr, decided = t, true
+		for _, a := range o.atoms {
+			if !a.Known || (a.Op != token.EQL && a.Op != token.NEQ) {
+				continue
+			}
+			var k cpInt
+			var isK bool
+			switch {
+			case rfIdent(a.X) == kind:
+				k, isK = a.Y.(cpInt)
+			case rfIdent(a.Y) == kind:
+				k, isK = a.X.(cpInt)
+			}
+			if isK && k.V == 22 {
+				isPtr, decided = (a.Op == token.EQL) == a.Truth, true
+			}
 		}
 	}
 	switch {
